@@ -40,7 +40,8 @@ ASSUMPTIONS = [
 ]
 NONVACUITY = ["compiles_returned", "compiles_raised", "snapshots_compared", "alias_checks",
               "tripwire_fonts", "failpoints_injected", "control_mutation_seen", "fixtures_run",
-              "family_runs", "static_runs", "history_second_calls"]
+              "family_runs", "static_runs", "history_second_calls",
+              "layer_compile_empty", "layer_compile_support", "layer_compile_sparse"]
 
 STATIC_FUNCS = ["compileTTF", "compileOTF"]
 FAMILY_FUNCS = ["compileInterpolatableTTFs", "compileInterpolatableTTFsFromDS",
@@ -173,6 +174,33 @@ def gen(rng, idx, tier):
             case["arg_filters"] = rng.sample(["PropagateAnchorsFilter", "SortContoursFilter",
                                               "DecomposeTransformedComponentsFilter"], 1)
         case["debug_fea"] = rng.random() < 0.2
+        if rng.random() < 0.16:
+            # compile a non-default layer: empty, holding only non-exported glyphs (so that the
+            # working glyph set becomes empty), or partly non-exported
+            import copy as _copy
+            gl = [g for g in case["ufo"]["glyphs"] if g["name"] != ".notdef"]
+            which = rng.choice(["empty", "support", "support", "sparse"])
+            picked = rng.sample(gl, min(len(gl), rng.randint(1, 2))) if which != "empty" else []
+            layer = _copy.deepcopy(picked)
+            for g in layer:
+                g["width"] += 20
+                g["components"] = []        # bases need not exist in a sparse layer
+                if not g["contours"]:
+                    g["contours"] = [[[0, 0, "line"], [100, 0, "line"], [100, 100, "line"]]]
+            case["ufo"]["layers"] = {"empty": [], "layer1": layer} if which != "empty" \
+                else {"empty": []}
+            opts["layerName"] = "empty" if which == "empty" else "layer1"
+            skipped = [g["name"] for g in (picked if which == "support" else picked[:1])]
+            if which != "empty":
+                if rng.random() < 0.5:
+                    opts["skipExportGlyphs"] = skipped
+                else:
+                    opts.pop("skipExportGlyphs", None)
+                    case["ufo"]["lib"]["public.skipExportGlyphs"] = skipped
+            case["layer_stratum"] = which
+            # something in the DEFAULT layer that every pipeline changes when run in place
+            if not any(g["components"] for g in gl) and len(gl) >= 2:
+                gl[-1]["components"].append({"base": gl[0]["name"], "t": [1, 0, 0, 1, 5, 5]})
         case["opts"] = opts
     elif r < 0.60:
         case["kind"] = "family"
@@ -342,6 +370,8 @@ def _run(case, bump, counters, tmp):
                 {k: v for k, v in f.items() if v is not None} for f in case["lib_filters"]]
         fonts = [build_ufo(spec, lib)]
         bump("static_runs")
+        if case.get("layer_stratum"):
+            bump("layer_compile_" + case["layer_stratum"])
     if doc is not None and not fonts:
         seen = []
         for s in doc.sources:
